@@ -45,6 +45,17 @@ impl TargetProc {
         let stdin = child.stdin.take().unwrap();
         let mut stdout = BufReader::new(child.stdout.take().unwrap());
         let mut line = String::new();
+        // never wait forever for a target that failed to come up
+        {
+            use std::os::unix::io::AsRawFd;
+            let mut pfd = libc::pollfd { fd: stdout.get_ref().as_raw_fd(), events: libc::POLLIN, revents: 0 };
+            let r = unsafe { libc::poll(&mut pfd, 1, 15_000) };
+            if r <= 0 {
+                unsafe { libc::kill(child.id() as i32, libc::SIGKILL) };
+                let _ = child.wait();
+                return Err("target did not report within 15 s".into());
+            }
+        }
         stdout.read_line(&mut line).map_err(|e| e.to_string())?;
         let report: Value = serde_json::from_str(&line).map_err(|e| format!("target report: {e}: {line:?}"))?;
         let mut ready = String::new();
